@@ -176,6 +176,20 @@ impl LuaEngine {
         
         redis_table.set("call", redis_call).map_err(|e| FerrousError::LuaError(e.to_string()))?;
         redis_table.set("pcall", redis_pcall).map_err(|e| FerrousError::LuaError(e.to_string()))?;
+        
+        // redis.status_reply(s) / redis.error_reply(s): tables with a single ok / err field
+        let status_reply = lua.create_function(|lua_ctx, msg: mlua::String| -> LuaResult<mlua::Table> {
+            let table = lua_ctx.create_table()?;
+            table.set("ok", msg)?;
+            Ok(table)
+        }).map_err(|e| FerrousError::LuaError(e.to_string()))?;
+        let error_reply = lua.create_function(|lua_ctx, msg: mlua::String| -> LuaResult<mlua::Table> {
+            let table = lua_ctx.create_table()?;
+            table.set("err", msg)?;
+            Ok(table)
+        }).map_err(|e| FerrousError::LuaError(e.to_string()))?;
+        redis_table.set("status_reply", status_reply).map_err(|e| FerrousError::LuaError(e.to_string()))?;
+        redis_table.set("error_reply", error_reply).map_err(|e| FerrousError::LuaError(e.to_string()))?;
         globals.set("redis", redis_table).map_err(|e| FerrousError::LuaError(e.to_string()))?;
         
         Ok(lua)
@@ -372,18 +386,25 @@ impl LuaEngine {
                 } else if n.is_infinite() {
                     let inf_str = if n.is_sign_positive() { "inf" } else { "-inf" };
                     RespFrame::BulkString(Some(Arc::new(inf_str.as_bytes().to_vec())))
-                } else if n.fract() == 0.0 && n >= i64::MIN as f64 && n <= i64::MAX as f64 {
-                    RespFrame::Integer(n as i64)
                 } else {
-                    let formatted = format!("{:.17}", n);
-                    let trimmed = formatted.trim_end_matches('0').trim_end_matches('.');
-                    RespFrame::BulkString(Some(Arc::new(trimmed.as_bytes().to_vec())))
+                    // A Lua number becomes a RESP integer; the fractional part is dropped
+                    // (scripts that need the fraction return tostring(n))
+                    RespFrame::Integer(n as i64)
                 }
             }
             LuaValue::String(s) => {
                 RespFrame::BulkString(Some(Arc::new(s.as_bytes().to_vec())))
             }
             LuaValue::Table(table) => {
+                // A table with a single "err" or "ok" field is an error / status reply
+                // (this is what redis.error_reply and redis.status_reply build)
+                if let Ok(LuaValue::String(msg)) = table.get::<LuaValue>("err") {
+                    return RespFrame::Error(Arc::new(msg.as_bytes().to_vec()));
+                }
+                if let Ok(LuaValue::String(msg)) = table.get::<LuaValue>("ok") {
+                    return RespFrame::SimpleString(Arc::new(msg.as_bytes().to_vec()));
+                }
+                
                 // Convert Lua table to Redis array
                 let mut items = Vec::new();
                 for i in 1.. {
@@ -394,11 +415,8 @@ impl LuaEngine {
                     }
                 }
                 
-                if items.is_empty() {
-                    RespFrame::BulkString(None)
-                } else {
-                    RespFrame::Array(Some(items))
-                }
+                // An empty table is an empty array, not nil
+                RespFrame::Array(Some(items))
             }
             _ => RespFrame::BulkString(None),
         }
